@@ -1,5 +1,6 @@
 import TinsModel.Wire.Icmp.ThFamily
 import TinsModel.Wire.Icmp.ThIcmp6Reparse
+import TinsModel.Wire.Icmp.ThCodec6
 /-
   Per-layer and family-level theorems of the Icmp family for the four wire properties.  Index:
 
@@ -15,6 +16,8 @@ import TinsModel.Wire.Icmp.ThIcmp6Reparse
   ThOptsReparse.lean   C03/C04: ICMPv6 option loop inverts the writer on expressible options; KF-C04-Icmp-2/3
                        (`icmp6_opts_reparse_full`, `icmp6_unaligned_option_fails`, `icmp6_opts_reparse_partial`)
   ThCodec.lean         C04: setters vs getters (union members, bit-fields), typed option codecs, built options are expressible
+  ThCodec6.lean        C04: ALL 24 typed ICMPv6 option codecs: named encoders tied to `apply` by `rfl`, `Repr*` predicates,
+                       `*_codec_inverse`, `*_wire` (built option is expressible), `icmp6_typed_codecs_inverse`
   ThIcmpReparse.lean   C03: ICMP (`icmp_reparse_plain`, `icmp_reparse_quote`, `icmp_reparse_ext`); KF-C03-Icmp-3/4
                        (`icmp_reparse_quote_full`, `icmp_reparse_ghost_fails`, `icmp_reparse_quote_partial`, `_aligned`)
   ThIcmp6Reparse.lean  C03: ICMPv6 (`icmp6_reparse_plain` incl. options / MLD records / query sources, `icmp6_reparse_ext`)
